@@ -13,6 +13,7 @@ import os
 
 from prompt_toolkit import PromptSession
 from prompt_toolkit.application.current import set_app
+from prompt_toolkit.auto_suggest import AutoSuggestFromHistory
 from prompt_toolkit.buffer import Buffer, EditReadOnlyBuffer
 from prompt_toolkit.clipboard import ClipboardData, InMemoryClipboard
 from prompt_toolkit.completion import WordCompleter
@@ -27,6 +28,7 @@ from prompt_toolkit.key_binding.key_processor import KeyPress, _Flush
 from prompt_toolkit.keys import KEY_ALIASES, Keys
 from prompt_toolkit.output import DummyOutput
 from prompt_toolkit.selection import SelectionState, SelectionType
+from prompt_toolkit.validation import ValidationError, Validator
 
 # The default key bindings are stateless (their filters look at `get_app()`), but building them costs
 # ~16 ms per Application.  Share one instance per process: same handlers, same filters.
@@ -52,6 +54,15 @@ def _load_page_shared():
 if os.environ.get("C05_FRESH_BINDINGS") != "1":
     _appmod.load_key_bindings = _load_shared
     _appmod.load_page_navigation_bindings = _load_page_shared
+
+class RejectX(Validator):
+    """rejects every text containing 'x'; the reported error position is deliberately often outside the text"""
+
+    def validate(self, document):
+        i = document.text.find("x")
+        if i >= 0:
+            raise ValidationError(cursor_position=2 * i + 3 if i % 2 else -1, message="no x")
+
 
 SEL_TYPES = {SelectionType.CHARACTERS: 0, SelectionType.LINES: 1, SelectionType.BLOCK: 2}
 
@@ -245,7 +256,8 @@ WORDS = ["alpha", "alps", "beta", "bet", "gamma delta", "世界", "a.b"]
 
 class Editor:
     def __init__(self, text="", cursor=None, vi=False, multiline=False, history=(), read_only=False,
-                 clip=None, clip_type="CHARACTERS", completer=True, traced=True, hs=False):
+                 clip=None, clip_type="CHARACTERS", completer=True, traced=True, hs=False, sug=False,
+                 val=False):
         cb = InMemoryClipboard()
         if clip is not None:
             cb.set_data(ClipboardData(clip, SelectionType[clip_type]))
@@ -254,7 +266,9 @@ class Editor:
             editing_mode=EditingMode.VI if vi else EditingMode.EMACS,
             multiline=multiline, history=InMemoryHistory(list(history)),
             clipboard=cb, completer=WordCompleter(WORDS) if completer else None,
-            enable_history_search=bool(hs))
+            enable_history_search=bool(hs),
+            auto_suggest=AutoSuggestFromHistory() if sug else None,
+            validator=RejectX() if val else None)
         self.app = self.session.app
         self.app.timeoutlen = None
         self.app.ttimeoutlen = None
